@@ -399,18 +399,7 @@ class Gen:
             mm = self.models[m2]
             if mm["fam"] != "caltrack" and FIT_COST.get((mm["fam"], mm["profile"]), FIT_COST.get(mm["fam"], 1)) <= 2.5:
                 m3 = self.load(doc2, mslot=m1, form="json")
-                other = {k: v for k, v in self._new_base(mm["fam"]).items() if k != "defect"}
-                if P.needs_ghi(mm["fam"], mm["profile"]):
-                    other["ghi"] = True
-                    if other.get("src") == "sample":
-                        other.pop("src")
-                        other["mid"] += 100
-                if P.needs_extra(mm["fam"], mm["profile"]):
-                    other["extra"] = True
-                    if other.get("src") == "sample":
-                        other.pop("src")
-                        other["mid"] += 100
-                db = self.make_data(other)
+                db = self.make_data(self._like_base(mm["fam"], mm["profile"], base0))
                 self.fit(mm["fam"], db, profile=mm["profile"], ignore=True, mslot=m3, reuse=True, allow_abort=False)
                 m4 = self.load(doc2, mslot=m2, form="json")
                 self.predict(m4, d_l, ignore=True)
@@ -490,6 +479,15 @@ class Gen:
             dx = self.make_data(self._reporting({k: v for k, v in self._new_base(ofam).items() if k != "defect"},
                                                 span=r.choice(["week", "month"])))
             self.predict(m2, dx, ignore=True)
+            mm = self.models[m2]
+            if mm["fam"] != "caltrack" and FIT_COST.get((mm["fam"], mm["profile"]), FIT_COST.get(mm["fam"], 1)) <= 2.5:
+                # a restored object is a model object like any other: fitting it on well-formed data returns a model
+                ob = self._like_base(mm["fam"], mm["profile"], base0)
+                db = self.make_data(ob)
+                self.fit(mm["fam"], db, profile=mm["profile"], ignore=True, mslot=m2, reuse=True, allow_abort=False)
+                dr = self.make_data(self._reporting(ob, obs="present", span=r.choice(["week", "month"])
+                                                    if not (ob.get("src") == "sample" and ob["fam"] == "billing") else "partial"))
+                self.predict(m2, dr, ignore=True)
             self._refused_refits(m0, base0, dx)
             self._refit_flipped(m0, base0, also_fresh=False)
         elif mode == "C05":
@@ -533,6 +531,18 @@ class Gen:
         d2 = self.make_data(base_then)
         self.fit(fam, d2, profile=profile, ignore=ignore, mslot=ms, reuse=True, allow_abort=False)
         return ms
+
+    def _like_base(self, fam, profile, base0):
+        """Another meter with the same columns as base0 (a restored model's features are those of its document)."""
+        other = self._other_base(fam, profile, base0)
+        if self._data_fam(fam) == "hourly":
+            for k in ("ghi", "extra"):
+                if bool(other.get(k)) != bool(base0.get(k)):
+                    other[k] = bool(base0.get(k))
+                    if other.get("src") == "sample":
+                        other.pop("src")
+                        other["mid"] += 100
+        return other
 
     def _other_base(self, fam, profile, not_like=None):
         other = self._new_base(fam)
